@@ -102,8 +102,8 @@ def targets():
         'EncodedCatchHandlerList': (handlers, [4], [5, 6], lambda N: N + 2),
         'ARSCHeader': (arsc_header, [12, 14], [16, 20], lambda N: N + 2),
         'parse_signatures_or_digests': (digests, [12, 16], [20, 24], lambda N: N + 2),
-        'AXMLParser chunk walk': (axml_doc, [8, 12], [16, 20], lambda N: 4 * N + 16),
-        'ARSCParser chunk walk': (arsc_doc, [8, 12], [16, 20], lambda N: 4 * N + 16),
+        'AXMLParser chunk walk': (axml_doc, [8, 12], [12, 16], lambda N: 4 * N + 16),
+        'ARSCParser chunk walk': (arsc_doc, [8, 12], [12, 16], lambda N: 4 * N + 16),
     }
 
 
